@@ -435,6 +435,32 @@ def run(repo, res, tier):
     INPUTS = {a_.arg for a_ in fw_init.args.args[1:]} - {"decimal_precision"}
     if not {"scenario", "planning_problem_set"} <= INPUTS:
         raise AnalysisError("FileWriter.__init__ no longer takes scenario / planning_problem_set")
+    # a memoised function (functools.lru_cache / cache) of the writer modules whose result depends on the shared precision
+    # cell: the cache key does not hold the precision, so what one writer formatted is handed to writers of another one
+    n_memo = 0
+    for rel_ in (WX, WP, WI):
+        m_ = repo.mod(rel_)
+        reads_cell = set()
+        fdefs = [x for x in ast.walk(m_.tree) if isinstance(x, ast.FunctionDef)]
+        for fd in fdefs:
+            if any(isinstance(n, ast.Attribute) and isinstance(n.value, ast.Name) and n.value.id in CELLS for n in ast.walk(fd)):
+                reads_cell.add(fd.name)
+        changed = True
+        while changed:
+            changed = False
+            for fd in fdefs:
+                if fd.name in reads_cell:
+                    continue
+                if any(isinstance(n, ast.Call) and ((isinstance(n.func, ast.Name) and n.func.id in reads_cell) or (isinstance(n.func, ast.Attribute) and n.func.attr in reads_cell and n.func.attr.startswith("_"))) for n in ast.walk(fd)):
+                    reads_cell.add(fd.name)
+                    changed = True
+        for fd in fdefs:
+            memo = [d for d in fd.decorator_list if norm(d.func if isinstance(d, ast.Call) else d).split(".")[-1] in ("lru_cache", "cache")]
+            if memo:
+                n_memo += 1
+                res.check("W2-NO-AMBIENT", "%s: a memoised function does not depend on the shared precision" % m_.qualname(fd), fd.name not in reads_cell, m_, fd, "%s is memoised (%s) and formats with the shared cell" % (m_.qualname(fd), norm(memo[0])), "the remembered text was formatted with the precision of whichever writer came first: another writer with another precision gets it back unchanged", qualname=m_.qualname(fd))
+    if n_memo == 0:
+        res.ok("W2-NO-AMBIENT", "no memoised function in the writer modules")
     res.rule("W6-INPUTS", "public write methods do not re-assign the writer's inputs", 4)
     for rel, cn in writers:
         cls = repo.cls(rel, cn)
